@@ -83,6 +83,9 @@ func sinkCall(c ssa.CallInstruction) string {
 }
 
 func checkC13(p *load.Program, r *kit.Report) {
+	importRules(p, r, "C03", "accept() follows VerifyHeader() == nil: VerifyHeader must return nil only for the required split header", 1,
+		func(o *kit.Obligation) bool { return strings.HasPrefix(o.Construct, "VerifyHeader") }, "GUARD-DOM")
+	importRules(p, r, "C14", "a read-ahead buffer on the connection keeps dispatching what an unverified, already refused peer sent", 1, nil, "READ-AHEAD")
 	r.NotDecided = "message sequences as such (the rule covers all of them at once by covering the handler table and every call path from it), timing; what flows into NodeManager.SetHeaderHandler from outside this module."
 	r.Rule("HANDLER-TABLE", "NewBitcoinNode installs handlers only for version, verack, headers, protoconf, ping, reject, extmsg; every other install happens in accept() (which sets ready/verified), in RequestBlock (reached only through nextNode's readiness test) or in exported setters nothing in the program calls", 8)
 	r.Rule("NO-SINK-PATH", "from the handlers installed by the constructor no call path reaches HeaderRepository.ProcessHeader, PeerRepository.Add/UpdateScore/UpdateTime or TxManager.AddTx/AddTxID except through a call dominated by the IsReady() true edge; dynamic dispatch through the handler table or the headerHandler field is resolved to every function that can be stored there", 7)
@@ -90,6 +93,8 @@ func checkC13(p *load.Program, r *kit.Report) {
 	r.Rule("LOCKSET", "the handler table is read and written only under the node mutex", 8)
 	r.Rule("HANDSHAKE-BOTH", "sendVerifyInitiation (handshake complete) is called only where both a version and a verack message were received: in the arm of one type and behind a flag that only the other arm sets", 2)
 	checkHandshakeBoth(p, r)
+	r.Rule("NO-IO-UNDER-LOCK", "nothing that can block on the peer or on another goroutine runs while connectionLock is held (Stop takes that lock to close the connection, e.g. to disconnect a verify-only node)", 1)
+	checkNoIOUnderConnectionLock(p, r, "NO-IO-UNDER-LOCK")
 
 	installs := handlerInstalls(p)
 	if len(installs) < 8 {
